@@ -51,8 +51,21 @@ CLAIMED = {
             "contexts created above/below consumers of the same held input",
             "A new binding contributes nothing and drives none of its machines while its input has been physically held since creation, for "
             "every history; it behaves like any other binding after the first physically inactive evaluation." + CORR, "§5 C08"),
+    "C09": ("Lean 4 theorems about a schedule model (every linearisation of PreUpdate respecting the edges InputSystem -> EnhancedInputSystem -> probe "
+            "sees this frame's input and all deliveries; the edge is necessary; edge events only on a state change) + the schedule facts read "
+            "off the real App's schedule graph on every run + probes in PreUpdate-after-set and Update with three ways of injecting input",
+            "Same-frame reflection and delivery before dependants/Update are proved for the schedule model under hypotheses that the harness checks "
+            "against the real schedule graph on every run; probe counts of the real App match the model for input injected as window events, by "
+            "direct mutation and from First. Partial: Bevy's executor and sync-point insertion are modelled, not verified." + CORR, "§5 C09"),
     "C10": ("Lean 4 theorems (per-step equations; induction over arbitrary state/delta histories) + checked correspondence",
             "Elapsed/fired durations are characterised for every state history and every sequence of non-negative deltas; payload = polled." + CORR, "§5 C10"),
+    "C11": ("Lean 4 theorems (refinement of Press / JustPress / Release / Hold / HoldAndRelease against declarative specs over actuation histories "
+            "of any length by induction; timer base and finiteness incl. speed zero; Tap and Pulse as per-evaluation characterisations linked to "
+            "the history through the timer-state lemma) + checked correspondence on direct evaluate calls (exhaustive short actuation sequences "
+            "x delta/speed grid x all parameter combinations) and in real contexts",
+            "The built-in conditions are proved to follow their documented patterns in the chosen time base for every history; none fires without "
+            "actuation; timers never divide by zero. Partial: for Tap and Pulse the history-level statement is assembled from a per-evaluation "
+            "theorem plus the timer-state invariant (Pulse's count bound is per evaluation)." + CORR, "§5 C11"),
     "C12": ("Lean 4 theorems (log of the evaluation equals the canonical invocation list, for arbitrary machines; independence from consumption) "
             "+ checked correspondence on instrumented conditions/modifiers",
             "Each modifier/condition past the held-input suppression is invoked exactly once per frame in the canonical order, with no "
@@ -75,11 +88,22 @@ CLAIMED = {
             "correspondence with Interaction components set by the harness",
             "With an interacted UI element all mouse-sourced inputs read inactive and keyboard/gamepad inputs are unchanged; without one "
             "nothing is masked. Partial: bevy_ui's own Interaction detection is outside the model." + CORR, "§5 C16"),
+    "C17": ("Lean 4 theorems (simulation relation `Agree` on the kept contexts' inputs: preserved by evaluating a kept action on both sides and by "
+            "any consumption of an input-disjoint action on one side; determinism) + pairwise runs of the real crate (configuration vs "
+            "sub-configuration with the input-disjoint contexts deleted, same script incl. noise) + every scenario run twice in separate processes",
+            "An action's result depends on the reader only through its own inputs; disjoint consumption is invisible; the real crate's traces of "
+            "the kept contexts are identical with and without the disjoint contexts and identical across re-runs. Partial: the lifting of the "
+            "simulation over arbitrary interleavings of groups in the registry is covered by the pairwise runs, not by a theorem." + CORR, "§5 C17"),
     "C18": ("Lean 4 theorems over exact rationals (Mathlib order/field lemmas: dead-zone range, sign, monotonicity, saturation; lerp between; "
             "swizzle permutation and losslessness; zero-to-zero; dimension rules) + checked correspondence on direct apply calls (dense grid, "
             "random values, short exact DeltaLerp chains) and in real contexts",
             "All listed algebraic laws are proved for all values and parameters in the documented domains. Partial: radial dead zone for an "
             "abstract length function, natural exponents only, f32 rounding not modelled (exact grids in the correspondence)." + CORR, "§5 C18"),
+    "C19": ("Lean 4 theorems about the binding-set model (bindings is a homomorphism: tuples / lists / each-helpers; equal flattening gives the "
+            "same ActionBind; preset expansion and compass directions through the modifier pipeline) + checked correspondence through six "
+            "construction routes of the real public API and the three presets bound to arbitrary inputs",
+            "Equivalent constructions denote literally the same ActionBind in the model, and the real crate's traces through every route equal "
+            "the route-independent model's; Cardinal / Bidirectional / GamepadStick map to the documented axes." + CORR, "§5 C19"),
     "C20": ("Lean 4 theorems about the value model (case analysis over all values/dimensions) + checked correspondence on direct ActionValue API calls",
             "All conversion laws are proved in Lean for every value and dimension over exact rationals; the model is tied to the real "
             "ActionValue API by running both on an exhaustive grid and random dyadic values and comparing byte for byte.", "§5 C20"),
